@@ -35,13 +35,20 @@ type c11Case struct {
 	Cfg c11Cfg `json:"cfg"`
 	Ops []int  `json:"ops"`
 	Ks  []int  `json:"ks"` // map-iteration start per op
+	// op 13 (failure-offset sweep): the sink of that WriteTo starts failing at byte SinkAt; style 0 accepts the
+	// prefix of the write that crosses the offset (short write), style 1 rejects that whole write
+	SinkAt    int `json:"sink_at,omitempty"`
+	SinkStyle int `json:"sink_style,omitempty"`
 }
+
+// c11EnumOps is the number of operations the sequence enumeration ranges over (op 13 belongs to the sweep).
+const c11EnumOps = 13
 
 var (
 	c11Shapes = []string{"single", "alternative", "body+attachment", "body+embed", "attachment-only", "two-preformatted-headers", "smime-single", "smime+attachment", "two-attachments-only", "body-writer+file-writer (switchable source fault)"}
 	c11Srcs   = []string{"reader", "readseeker", "file", "fs.FS", "text-template", "reader(*bytes.Reader, partially consumed)", "reader(*strings.Reader)", "readseeker(partially consumed)", "reader(*os.File)"}
 	c11Ops    = []string{"WriteTo", "Write", "NewReader", "UpdateReader", "WriteToFile", "WriteToTempFile", "Send", "WriteTo(sink fails at 0)", "WriteTo(sink fails mid-way)",
-		"WriteTo(while the content source fails)", "NewReader(while the content source fails)", "UpdateReader(while the content source fails)", "Send(while the content source fails)"}
+		"WriteTo(while the content source fails)", "NewReader(while the content source fails)", "UpdateReader(while the content source fails)", "Send(while the content source fails)", "WriteTo(sink fails at byte K)"}
 )
 
 func c11HasFile(shape int) bool {
@@ -296,7 +303,7 @@ func c11Exec(r *vf.Run, k c11Case, dir string) []finding {
 		var operr error
 		ok := true
 		ks := k.Ks[step]
-		srcFault := op >= 9
+		srcFault := op >= 9 && op <= 12
 		if srcFault {
 			if v, found := c11Faults.Load(m); found {
 				v.(*c11Fault).on = true
@@ -356,6 +363,9 @@ func c11Exec(r *vf.Run, k c11Case, dir string) []finding {
 					} else if operr == nil {
 						operr = fmt.Errorf("server committed %d messages", len(sess.Commits))
 					}
+				case 13:
+					_, _ = m.WriteTo(&faultSink{at: k.SinkAt, style: k.SinkStyle})
+					ok = false
 				case 7, 8:
 					at := 0
 					if op == 8 {
@@ -408,7 +418,7 @@ func init() {
 	vf.Register(&vf.Check{
 		ID: "C11", Title: "rendering is repeatable and all output paths agree",
 		Run: func(r *vf.Run) {
-			r.SetRule("message shapes {single, alternative, body+attachment, body+embed, attachment-only, two attachments only, three preformatted headers, S/MIME single, S/MIME+attachment} × file source {io.Reader (buffer, *bytes.Reader partially consumed, *strings.Reader, *os.File), read-seeker (fresh and partially consumed), file, fs.FS, text template} × file encoding {base64, 8bit, QP} × ALL sequences of length 2..L over the 9 render operations {WriteTo, Write, NewReader, UpdateReader, WriteToFile, WriteToTempFile, Send (server commit log), WriteTo into a sink failing at 0, … failing mid-way, and WriteTo / NewReader / UpdateReader / Send while the content source (body or file writer function) fails} × map-iteration start 0..7 per operation (<=1 operation deviating from start 0; thorough <=2) through the runtime seam; Date, Message-ID and boundaries are generated by go-mail on first use; every successful output must equal the first; distinct by (configuration, operation sequence, map starts)")
+			r.SetRule("message shapes {single, alternative, body+attachment, body+embed, attachment-only, two attachments only, three preformatted headers, S/MIME single, S/MIME+attachment} × file source {io.Reader (buffer, *bytes.Reader partially consumed, *strings.Reader, *os.File), read-seeker (fresh and partially consumed), file, fs.FS, text template} × file encoding {base64, 8bit, QP} × ALL sequences of length 2..L over the 9 render operations {WriteTo, Write, NewReader, UpdateReader, WriteToFile, WriteToTempFile, Send (server commit log), WriteTo into a sink failing at 0, … failing mid-way, and WriteTo / NewReader / UpdateReader / Send while the content source (body or file writer function) fails} × map-iteration start 0..7 per operation (<=1 operation deviating from start 0; thorough <=2) through the runtime seam; Date, Message-ID and boundaries are generated by go-mail on first use; plus a failure-offset sweep per configuration: [WriteTo, WriteTo into a sink that starts failing at byte K, WriteTo, WriteTo] for EVERY K of the output × {short write, rejected write}; every successful output must equal the first; distinct by (configuration, operation sequence, map starts)")
 			r.Assume("map iteration order is owned through a runtime build-overlay seam (start offset 0..7 for maps of <= 8 entries)", "for S/MIME the per-render outer boundary and signature value are excluded: the signed entity and the remaining top-level fields are compared",
 				"Send output compares modulo the transport's final CRLF", "8bit file content with bare LF/CR compares modulo line-break canonicalisation across the Send path (the dot-writer canonicalises it; such content is illegal on the wire)")
 			if !mapseam.Enabled {
@@ -443,15 +453,15 @@ func init() {
 					}
 					n := 1
 					for i := 0; i < L; i++ {
-						n *= len(c11Ops)
+						n *= c11EnumOps
 					}
 					for code := 0; code < n; code++ {
 						ops := make([]int, L)
 						c := code
 						useful := 0
 						for i := 0; i < L; i++ {
-							ops[i] = c % len(c11Ops)
-							c /= len(c11Ops)
+							ops[i] = c % c11EnumOps
+							c /= c11EnumOps
 							if ops[i] < 7 {
 								useful++
 							}
@@ -543,6 +553,56 @@ func init() {
 					}
 				}
 			}
+			// failure-offset sweep: render, render into a sink that starts failing at byte K — for EVERY K of the
+			// output and both failure styles — then render twice more: both must equal the first output
+			for _, cfg := range cfgs {
+				m0, err := c11Build(cfg, dir)
+				if err != nil {
+					r.HarnessError("C11 build %+v: %v", cfg, err)
+					return
+				}
+				var b0 bytes.Buffer
+				if pan, pw := vf.Guard(func() { _, err = m0.WriteTo(&b0) }); pan || err != nil {
+					continue // reported by the sequence enumeration above
+				} else {
+					_ = pw
+				}
+				step := 1
+				if (cfg.Shape == 6 || cfg.Shape == 7) && !r.Thorough {
+					step = 7 // signing is the expensive step
+				}
+				for at := 0; at < b0.Len(); at += step {
+					for style := 0; style < 2; style++ {
+						idx++
+						if !r.Mine(idx) {
+							continue
+						}
+						if r.OverBudget() {
+							r.Incomplete("time budget reached during the C11 failure-offset sweep")
+							return
+						}
+						k := c11Case{Cfg: cfg, Ops: []int{0, 13, 0, 0}, Ks: []int{0, 0, 0, 0}, SinkAt: at, SinkStyle: style}
+						fs := c11Exec(r, k, dir)
+						r.Eval(vf.Hash(fmt.Sprintf("%+v", k)), true)
+						r.TraceValidated()
+						if len(fs) == 0 {
+							r.Outcome("identical-after-failed-render")
+						}
+						for _, f := range fs {
+							f := f
+							r.Outcome(strings.SplitN(f.key, "/", 2)[0])
+							r.Violation(f.key+"/after-failed-render", f.what+fmt.Sprintf(" (sink failed at byte %d, style %d)", at, style), k, func() string {
+								for _, x := range c11Exec(r, k, dir) {
+									if x.key == f.key {
+										return f.key + "/after-failed-render"
+									}
+								}
+								return ""
+							})
+						}
+					}
+				}
+			}
 		},
 		Replay: func(r *vf.Run, kase json.RawMessage) {
 			var k c11Case
@@ -555,6 +615,9 @@ func init() {
 			r.Eval(1, true)
 			fmt.Printf("  cfg=%+v ops=%v map-starts=%v\n", k.Cfg, opNames(k.Ops), k.Ks)
 			for _, f := range c11Exec(r, k, dir) {
+				if len(k.Ops) > 1 && k.Ops[1] == 13 {
+					f.key += "/after-failed-render"
+				}
 				fmt.Printf("  -> %s: %s\n", f.key, f.what)
 				r.Violation(f.key, f.what, k, nil)
 			}
